@@ -89,7 +89,17 @@ def vacuity(ex):
     res = []
     s = z3.Solver()
     s.set('timeout', max(Z3_TIMEOUT_MS, 90000))
+
+    def has_q(t, seen):
+        if t.get_id() in seen:
+            return False
+        seen.add(t.get_id())
+        if z3.is_quantifier(t):
+            return True
+        return any(has_q(c, seen) for c in t.children())
     for a in ex.assumes:
+        if has_q(a, set()):
+            continue      # quantified preconditions are left out of the satisfiability (vacuity) guard
         s.add(a)
     r = s.check()
     res.append(('assumptions-consistent', str(r)))
